@@ -36,8 +36,13 @@ func envVars() map[string]any {
 	vars := map[string]any{}
 
 	for _, s := range os.Environ() {
-		kv := strings.SplitN(s, "=", 2)
-		vars[fmt.Sprintf("$env:%s", kv[0])] = kv[1]
+		k, v, found := strings.Cut(s, "=")
+		if !found {
+			// Not a NAME=value pair; execve() allows arbitrary strings
+			continue
+		}
+
+		vars[fmt.Sprintf("$env:%s", k)] = v
 	}
 
 	return vars
